@@ -279,13 +279,15 @@ def statement_to_ast(statement):
 
 
 def conditional_to_ast(statement):
+    # The guard goes outside of the loops: like the interpreter, generated code
+    # evaluates the loop bounds of a statement only if its condition holds.
     if statement.condition is not True:
         new_statement = statement.copy(condition=True)
         return IfThenElse(statement.condition,
-            statement_to_ast(new_statement),
+            loop_to_ast_node(new_statement),
             NullASTNode())
     else:
-        return statement_to_ast(statement)
+        return loop_to_ast_node(statement)
 
 
 def loop_to_ast_node(statement):
@@ -298,7 +300,7 @@ def loop_to_ast_node(statement):
                 ubound=upper,
                 body=loop_to_ast_node(new_statement))
     else:
-        return conditional_to_ast(statement)
+        return statement_to_ast(statement)
 
 
 def create_ast_from_phase(code, phase_name):
@@ -343,7 +345,7 @@ def create_ast_from_phase(code, phase_name):
         if isinstance(statement, Nop):
             continue
 
-        main_block.append(loop_to_ast_node(statement))
+        main_block.append(conditional_to_ast(statement))
 
     # }}}
 
